@@ -194,8 +194,18 @@ Qed.
 Lemma enum_lookup_typed n members x y : enum_lookup n members x = ROk y -> exists m v, y = VEnum n m v /\ In (m, v) members.
 Proof.
   unfold enum_lookup. destruct (hashable x); [|discriminate].
-  destruct (find (fun m => py_eqb x (snd m)) members) as [[mn mv]|] eqn:F; [|discriminate].
+  destruct (find (fun m => lit_match x (snd m)) members) as [[mn mv]|] eqn:F; [|discriminate].
   intros H; inversion H; subst. apply find_some in F as [Hin _]. eauto.
+Qed.
+
+(* the member found for a converted value has a value of the same kind (1.0 is not the member valued 1) *)
+Lemma enum_lookup_same_kind n members x mname v :
+  enum_lookup n members x = ROk (VEnum n mname v) -> In (mname, v) members /\ kind_of x = kind_of v /\ py_eqb x v = true.
+Proof.
+  unfold enum_lookup. destruct (hashable x); [|discriminate].
+  destruct (find (fun m => lit_match x (snd m)) members) as [[mn mv]|] eqn:F; [|discriminate].
+  intros H; inversion H; subst. apply find_some in F as [Hin M]. simpl in M.
+  split; [assumption|]. split; [now apply lit_match_kind|now apply lit_match_eqb].
 Qed.
 
 Theorem images_are_typed : forall t, images_typed t.
